@@ -366,8 +366,9 @@ type callObs struct {
 }
 
 var (
-	out   *lib.Writer
-	outMu sync.Mutex
+	out      *lib.Writer
+	outMu    sync.Mutex
+	nDropped int // histories not reported because a client port was shared with another exchange in flight
 )
 
 func (w *worker) runHist(h histSpec) {
@@ -521,6 +522,17 @@ func recipeVals(rs []recipe, timeout bool) string {
 
 func (w *worker) emit(h histSpec, calls []*callObs, kind string) {
 	scion := strings.HasPrefix(kind, "scion")
+	for _, co := range calls {
+		for _, rq := range co.reqs {
+			if portShared(rq) && os.Getenv("C05_NODROP") == "" {
+				// a datagram of another exchange may have reached a socket of this history
+				outMu.Lock()
+				nDropped++
+				outMu.Unlock()
+				return
+			}
+		}
+	}
 	// flatten the exchanges to find, for each, the request that follows it
 	type xref struct{ c, k int }
 	var order []xref
@@ -823,6 +835,11 @@ func main() {
 	addrB := netip.AddrFrom4([4]byte{127, 105, byte(pid / 256), byte(pid % 256)})
 	out = lib.NewWriter(a.Out)
 	defer out.Close()
+	defer func() {
+		if nDropped > 0 {
+			fmt.Printf("NOTE %d histories not reported: a client port was shared with another exchange still in flight\n", nDropped)
+		}
+	}()
 
 	if a.Replay != "" {
 		w := newWorker(0, a.Seed, addrA, addrB)
